@@ -33,7 +33,7 @@ uint8_t G_blk0[4];    /* harness snapshot of ctx->block before the call */
 void zuc_encrypt(ZUC_STATE *state, const uint8_t *in, size_t inlen, uint8_t *out)
 REQUIRES(RW_OK(state, sizeof(ZUC_STATE)) && inlen <= ((size_t)1 << 41))
 /* the call sites pass ctx->block next to ctx->zuc_state inside one ZUC_CTX: ranges disjoint, not objects */
-REQUIRES(inlen == 0 || (RD_OK(in, inlen) && WR_OK(out, inlen) && ZS_DISJ_STATE(state, in, inlen) && ZS_DISJ_STATE(state, out, inlen)))
+REQUIRES(inlen == 0 || (RD_OK(in, inlen) && WR_OK(out, inlen) && ZS_DISJ_STATE(state, in, inlen) && SEPARATE(state, out)))
 /* word-wise in place is fine; any other overlap is not */
 REQUIRES(inlen == 0 || in == out || !__CPROVER_same_object(in, out) || __CPROVER_POINTER_OFFSET(in) + inlen <= __CPROVER_POINTER_OFFSET(out)
 	|| __CPROVER_POINTER_OFFSET(out) + inlen <= __CPROVER_POINTER_OFFSET(in))
